@@ -279,6 +279,66 @@ def gen_l2(rng, n, profile, prefix):
         if profile == "fail" and rng.randrange(2): ops += ["W" + b"<p>".hex()] * rng.randrange(1, 3)
         yield "L2 %s%d %s %s ops=%s" % (prefix, i, " ".join("%s=%s" % x for x in kv.items()), " ".join(toks), ",".join(ops))
 
+def regroup(line, newid, chunks, extra_tokens=()):
+    toks = [t for t in line.split(' ') if not t.startswith('ops=')]
+    toks[1] = newid
+    return " ".join(toks + list(extra_tokens)) + " ops=" + ",".join(["W" + c.hex() for c in chunks] + ["E"])
+def data_of(line):
+    ops = [t for t in line.split(' ') if t.startswith('ops=')][0][4:]
+    return b"".join(bytes.fromhex(o[1:]) for o in ops.split(',') if o.startswith('W'))
+def all_chunkings(rng, data, k):
+    out = [[data], [data[i:i+1] for i in range(len(data))] or [b""]]
+    if len(data) > 1:
+        c = rng.randrange(1, len(data)); out.append([data[:c], data[c:]])
+        c1 = rng.randrange(0, len(data)); c2 = rng.randrange(c1, len(data) + 1); out.append([data[:c1], b"", data[c1:c2], data[c2:]])
+    while len(out) < k:
+        ch, i = [], 0
+        while i < len(data):
+            step = rng.randrange(0, 9); ch.append(data[i:i+step]); i += step
+        out.append(ch or [b""])
+    return out[:k]
+def gen_groups(rng, n, base_family, k):
+    """the same configuration and input under k different chunkings: ids <base>.<j>"""
+    gens = {'l1': lambda: gen_l1(rng, n, 'g'), 'l2match': lambda: gen_l2(rng, n, 'match', 'gm'), 'l2edit': lambda: gen_l2(rng, n, 'edit', 'ge'),
+            'l2mixed': lambda: gen_l2(rng, n, 'mixed', 'gx')}
+    for line in gens[base_family]():
+        if any(t.split('=')[0] in ('fail', 'mem') for t in line.split(' ')): continue    # failures are chunking dependent by nature
+        data = data_of(line); cid = line.split(' ')[1]
+        for j, ch in enumerate(all_chunkings(rng, data, k)):
+            yield regroup(line, "%s.%d" % (cid, j), ch)
+OBSERVERS = ["doc=~-~-~-", "doc=-~~-~-", "doc=-~-~a:~-", "sel=2a~A~~-~-", "sel=" + "6c692c20615b687265665d" + "~T6c69|T61.E68726566~~-~-",
+             "sel=" + "2a" + "~A~-~~-", "sel=" + "64697620*".replace("*", "2a") + "~T646976_A~-~-~a:"]
+def gen_pairs(rng, n):
+    """C06: configuration H and H plus a set O of observing handlers: ids <base>.0 (H) and <base>.j (H u O_j)"""
+    for line in gen_l2(rng, n, 'match', 'pr'):
+        if any(t.split('=')[0] in ('fail', 'mem') for t in line.split(' ')): continue
+        data = data_of(line); cid = line.split(' ')[1]
+        ch = chunkings(rng, data)
+        yield regroup(line, cid + ".0", ch)
+        for j in range(1, 4):
+            obs = rng.sample(OBSERVERS, rng.choice([1, 1, 2, 3]))
+            yield regroup(line, "%s.%d" % (cid, j), ch, obs)
+def gen_mem(rng, n):
+    """C10/C11: inputs that grow each buffer x a sweep of limits: ids <base>.<limit>"""
+    growers = [b"<a href='" + b"x" * 60, b"<!--" + b"c" * 70, b"<" + b"t" * 50, b"<div " + b"a=b " * 20,
+               b"".join(b"<div>" for _ in range(30)), b"<ul>" + b"<li>x" * 12 + b"</ul>", b"text " * 10 + b"<b title=\"" + b"y" * 40 + b"\">z</b>"]
+    isz = int(open('/verif/build/itemsize.txt').read().strip()) if __import__('os').path.exists('/verif/build/itemsize.txt') else 104
+    for i in range(n):
+        data = rng.choice(growers) + (doc(rng, 4) if rng.randrange(2) else b"")
+        sels = rng.choice([["sel=2a~A~~-~-"], ["sel=2a~A~~~a:"], [], ["sel=" + hx("div div") + "~T646976_T646976~~-~-", "doc=-~~-~-"], ["doc=~~a:~-"], ["doc=~~a:~-"], ["doc=-~~-~-"]])
+        prealloc = rng.choice([0, 0, 16, 64])
+        ch = [c for c in chunkings(rng, data)]
+        if len(ch) < 4 and len(data) > 12:
+            k = rng.randrange(4, 9); a = max(1, len(data) // k); ch = [data[j:j+a] for j in range(0, len(data), a)]
+        need = len(data) + 8 * isz * 4 + prealloc
+        limits = sorted(set([0, 1, prealloc, prealloc + 1] + [rng.randrange(0, need) for _ in range(6)] + [len(data), need + 10]))
+        bm = rng.randrange(2)
+        for lim in limits:
+            if lim < prealloc and i % 10 != 0: continue   # preallocation above the limit: known finding C10/PreallocAboveLimit, kept in a few groups
+            toks = ["L2", "mm%d.%d" % (i, lim), "isz=%d" % isz, "strict=0", "mem=%d" % lim, "prealloc=%d" % prealloc, "bm=%d" % bm] + sels
+            if bm and rng.randrange(2): toks.append("bail=h5b425d")
+            yield " ".join(toks) + " ops=" + ",".join(["W" + c.hex() for c in ch] + ["E"])
+
 def main():
     fam, seed, n = sys.argv[1], int(sys.argv[2]), int(sys.argv[3])
     rng = random.Random(seed)
@@ -286,6 +346,12 @@ def main():
         for l in gen_l1(rng, n): print(l)
     elif fam in ("l2match", "l2edit", "l2fail", "l2mixed"):
         for l in gen_l2(rng, n, fam[2:], fam[2] + fam[3]): print(l)
+    elif fam.startswith("grp-"):
+        for l in gen_groups(rng, max(1, n // 5), fam[4:], 5): print(l)
+    elif fam == "pairs":
+        for l in gen_pairs(rng, max(1, n // 4)): print(l)
+    elif fam == "mem":
+        for l in gen_mem(rng, max(1, n // 10)): print(l)
     elif fam == "l1fail":
         for l in gen_l1fail(rng, n): print(l)
     else:
